@@ -269,7 +269,7 @@ func genObject(r *rand.Rand, kind string) *triple.Object {
 }
 
 var objKindsD12 = []string{"intD", "floatD", "textD", "node", "pred", "bool"}
-var objKindsAll = []string{"intD", "floatD", "textD", "node", "pred", "bool", "int", "float", "text", "blob", "tpred"}
+var objKindsAll = []string{"intD", "floatD", "textD", "node", "pred", "bool", "int", "float", "text", "blob", "tpred", "floatN", "digits", "digitsT"}
 
 func genObjKinds(r *rand.Rand, class string) []string {
 	switch class {
